@@ -1,9 +1,17 @@
 /-
   C08 (termination part) — every modelled iterator is a state machine whose `toList` is defined by
-  structural recursion on explicit fuel (Lean accepting the definition is the termination proof of
-  the MODEL), and the fuel given is enough: the fuel-bounded drain equals a closed form. The
-  corollaries below collect these facts together with the step bound each closed form implies;
-  the harness enforces iteration budgets on the real iterators (`C08:iteration-budget-exceeded`).
+  structural recursion on explicit fuel. A fuelled drain terminates whatever the state machine
+  does, so Lean accepting the definition says NOTHING about the iterator. What the theorems below
+  state is "fuelled drain = closed form" (`*_terminates`) and the length of the closed form
+  (`*_steps`). Termination of the modelled state machine follows from them only in combination
+  with how the fuel is chosen in the model definitions: the fuel is (an upper bound of) the length
+  of the closed form PLUS ONE (`Rect.points`: `rows * columns + 1`; `CropIt.toList`:
+  `colours + 1`; `Polyline.points`: the sum of the segments' major lengths + 1; circle / ellipse
+  scanlines: rows + 1). A drain that stopped because the fuel ran out has exactly `fuel` items;
+  the closed form is shorter than the fuel; hence the drain stopped because `next` returned
+  `None`, after at most `length` items. The names `*_terminates` are kept (STATUS / evidence list
+  them); read them as "`*_drain_eq_closed_form` (fuel = length + 1, so `next` reaches `None`)".
+  The harness enforces iteration budgets on the real iterators (`C08:iteration-budget-exceeded`).
 
   -- [V] the real iterators stay within these step bounds: carried by correspondence + oracle only (the per-topic streams compare the drained real iterators with the models item by item)
   -- [V] termination of thick lines / polylines / triangles / rounded rectangles / sectors (`ThickPoints`, scanline intersections): the models use fuel and report `stuck`, no closed form is proved; carried by correspondence + oracle only
@@ -20,8 +28,11 @@ import EG.Lemmas.Scanline
 namespace EG.C08
 open EG
 
-/-- `Rectangle::points()`: drained with fuel `rows * columns + 1` the iterator yields the row-major
-product of `rows()` and `columns()`, for every rectangle (also saturating ones) ... -/
+/-- `Rectangle::points()`, FUELLED DRAIN = CLOSED FORM: drained with fuel `rows * columns + 1` the
+iterator yields the row-major product of `rows()` and `columns()`, for every rectangle (also
+saturating ones). The statement is not "terminates" by itself; since the closed form has at most
+`rows * columns` items (fewer than the fuel), the drain ended with `next = None`, not by running out
+of fuel: that is the termination argument (see the file header) ... -/
 theorem rect_points_terminates (r : Rect) : r.points = r.pointsSpec := Rect.points_eq_spec r
 
 /-- ... i.e. `width * height` points when the box does not saturate. -/
@@ -37,8 +48,10 @@ theorem line_points_steps (l : Line) : (Line.points l).length = (Line.dmaj l).to
 theorem scanline_steps (s : Scanline) : s.toList = s.points ∧ s.points.length = (s.xe - s.xs).toNat :=
   ⟨Scanline.toList_eq s, Scanline.points_length s⟩
 
-/-- `Circle::points()`: the scanline iterator is polled once per row of the bounding box, and
-the points are those of the box that `contains` accepts: at most `d * d`. -/
+/-- `Circle::points()`, FUELLED DRAIN = CLOSED FORM + length bound: the scanline iterator is polled
+once per row of the bounding box, and the points are those of the box that `contains` accepts: at
+most `d * d`. Termination of the state machine follows because the model drains with fuel
+`d * d + 1` (one more than this bound), see the file header. -/
 theorem circle_points_terminates {c : Circle} (h : c.InRange) :
     c.points = c.boundingBox.points.filter c.contains ∧ c.points.length ≤ c.d * c.d := by
   have e := Circle.points_eq_filter h
@@ -49,8 +62,10 @@ theorem circle_points_terminates {c : Circle} (h : c.InRange) :
   omega
 example : (⟨⟨-1024, -1024⟩, 1024⟩ : Circle).InRange := by decide
 
-/-- `Ellipse::points()`: at most one scanline per row of the bounding box (rows without a hit are
-skipped, commit db99a72), at most `w * h` points. -/
+/-- `Ellipse::points()`, FUELLED DRAIN = CLOSED FORM + length bounds: at most one scanline per row of
+the bounding box (rows without a hit are skipped, commit db99a72), at most `w * h` points.
+Termination of the state machine follows because the fuel of the model exceeds these bounds by
+one, see the file header. -/
 theorem ellipse_points_terminates {e : Ellipse} (h : e.InRange) :
     e.points = e.boundingBox.points.filter e.contains ∧ e.points.length ≤ e.size.w * e.size.h ∧
     e.scanlines.toList.length ≤ (e.scanlines.yEnd - e.scanlines.y).toNat := by
@@ -76,15 +91,17 @@ theorem contiguous_pixels_steps {im : Img.ImageRaw} (hw : im.WF) (ax ay : Nat) (
     ((Img.CP.new im sz (ay * im.dataWidth + ax) (im.dataWidth - sz.w)).toList).length = sz.w * sz.h :=
   Img.ImageRaw.stream_length hw ax ay sz hx hy hi
 
-/-- `Cropped` (the iterator behind `DrawTargetExt::cropped` / `clipped` fills): drained with fuel
-`colours + 1` it yields its closed form, a sublist of the colours it was given. -/
+/-- `Cropped` (the iterator behind `DrawTargetExt::cropped` / `clipped` fills), FUELLED DRAIN =
+CLOSED FORM: drained with fuel `colours + 1` it yields its closed form, a sublist of the colours it
+was given (so at most `colours` items, fewer than the fuel: the drain ended with `next = None`). -/
 theorem cropped_terminates (it : CropIt) (hx : it.x ≤ it.w) : it.toList = it.spec :=
   CropIt.toList_eq_spec it hx
 example : (CropIt.new [1, 2, 3, 4] ⟨2, 2⟩ ⟨⟨0, 0⟩, ⟨1, 2⟩⟩).x ≤ (CropIt.new [1, 2, 3, 4] ⟨2, 2⟩ ⟨⟨0, 0⟩, ⟨1, 2⟩⟩).w := by
   decide
 
-/-- `Polyline::points()`: drained with the budget "sum of the segments' major lengths" it yields
-the union of the segment lines, each joint once (the empty polyline yields nothing). -/
+/-- `Polyline::points()`, FUELLED DRAIN = CLOSED FORM: drained with the budget "sum of the segments'
+major lengths (+ 1)" it yields the union of the segment lines, each joint once (the empty polyline
+yields nothing); the closed form is shorter than the budget, so the drain ended with `next = None`. -/
 theorem polyline_points_terminates (pl : Polyline) : pl.points = pl.pointsSpec :=
   Polyline.points_eq_spec pl
 
